@@ -369,9 +369,12 @@ class Fact:
 
 def facts_at(node, stop=None, check_kills=True):
     """Facts (test, polarity) holding whenever `node` is reached from the entry
-    of its function (or of `stop`, an enclosing node)."""
+    of its function (or of `stop`, an enclosing node).  A fact is dropped when
+    anything executed between its guard and the node (at any nesting level)
+    may change what it mentions."""
     facts = []
     st = enclosing_stmt(node)
+    acc = []        # statements executed after the current level's position and before `node`
     while st is not None and st is not stop and not isinstance(st, (ast.FunctionDef, ast.AsyncFunctionDef, ast.ClassDef, ast.Module)):
         blk = _block_of(st)
         if blk is None:
@@ -382,7 +385,7 @@ def facts_at(node, stop=None, check_kills=True):
             for j in range(idx - 1, -1, -1):
                 s = lst[j]
                 if isinstance(s, ast.If):
-                    between = lst[j + 1: idx]
+                    between = lst[j + 1: idx] + acc
                     for test, pol in fall_conditions(s):
                         if not (check_kills and _kills(between, _mentioned_keys(test))):
                             facts.append(Fact(test, pol, "exit"))
@@ -392,12 +395,13 @@ def facts_at(node, stop=None, check_kills=True):
             if isinstance(parent, ast.If):
                 pol = field == "body"
                 keys = _mentioned_keys(parent.test)
-                if not (check_kills and _kills(lst[:idx], keys)):
+                if not (check_kills and _kills(lst[:idx] + acc, keys)):
                     facts.append(Fact(parent.test, pol, "arm"))
             elif isinstance(parent, ast.While) and field == "body":
                 keys = _mentioned_keys(parent.test)
-                if not (check_kills and _kills(lst[:idx], keys)):
+                if not (check_kills and _kills(lst[:idx] + acc, keys)):
                     facts.append(Fact(parent.test, True, "loop"))
+            acc = lst[:idx] + acc
         st = parent
         if isinstance(st, ast.ExceptHandler):
             st = getattr(st, "_parent", None)
